@@ -917,7 +917,8 @@ class MainTransformer(object):
                 destroy_param = parent.get_parameter(param.destroy_name)
                 # This is technically bogus: destroy parameters are not
                 # notified; we handle this in the final transformation pass
-                destroy_param.scope = ast.PARAM_SCOPE_NOTIFIED
+                if destroy_param.scope is None:
+                    destroy_param.scope = ast.PARAM_SCOPE_NOTIFIED
 
         closure_annotation = annotations.get(ANN_CLOSURE)
         if closure_annotation and len(closure_annotation) == 1:
